@@ -32,6 +32,7 @@ func init() {
 		Name(c, "R-NAME")
 		MustUse(c, "R-MUSTUSE", libPkgs(c), true, false)
 		Acc(c, "R-ACC", []*packages.Package{c.Pkg("seq"), c.Pkg("iterator"), c.Pkg("list")})
+		MonoidEmpty(c, "R-EMPTY", []*packages.Package{c.Pkg("seq"), c.Pkg("iterator"), c.Pkg("list")})
 		Mirror(c, "R-MIRROR", []*packages.Package{c.Pkg("monoid"), c.Pkg("semigroup")}, map[string]bool{"Combine": true}, true,
 			func(bc binClosure) bool { return bc.fb.Decl != nil && bc.fb.Decl.Name.Name == "Dual" }, 25)
 		Rel(c, "R-REL", []*packages.Package{c.Pkg("monoid"), c.Pkg("semigroup")}, anyDecl, instanceParam, 200)
